@@ -210,6 +210,26 @@ def hosts_slices():
             h.n("Neg", ["p"], "pn")
             h.out("pn", "q")
             out.append(h.build())
+        # node-order variants of an exact instance: the upper slice (and a consumer of it) before the lower slice;
+        # a consumer of the lower slice between the two
+        for order in ("upper_first_with_consumer", "consumer_between"):
+            h = H(f"two Slices x={list(xs)} [0:{cut}] and [{cut}:{d}] order={order}")
+            h.inp("x", F, xs)
+            for nm, v in (("b0", 0), ("e0", cut), ("b1", cut), ("e1", d)):
+                h.c(nm, np.array([v], dtype=np.int64))
+            h.c("a0", np.array([ax], dtype=np.int64))
+            if order == "upper_first_with_consumer":
+                h.n("Slice", ["x", "b1", "e1", "a0"], "q")
+                h.n("Relu", ["q"], "qr")
+                h.n("Slice", ["x", "b0", "e0", "a0"], "p")
+            else:
+                h.n("Slice", ["x", "b0", "e0", "a0"], "p")
+                h.n("Relu", ["p"], "pr")
+                h.n("Slice", ["x", "b1", "e1", "a0"], "q")
+                h.n("Relu", ["q"], "qr")
+            h.n("Neg", ["p"], "pn")
+            h.out("pn", "qr")
+            out.append(h.build())
     return out
 
 
@@ -704,6 +724,32 @@ def hosts_scatter():
         h.c("m1", np.array([-1], dtype=np.int64))
         h.n("Unsqueeze", ["r", "m1"], "i")
         h.n("ScatterND", ["x", "i", "u"], "y")
+        h.out("y")
+        out.append(h.build())
+    # the exact `x[:, ...] = y` idiom of no_op_dynamic_scatter_nd_rule: indices span data.shape[axis]; the scatter is applied to
+    # `transposed_data`, whose first dim equals data.shape[axis] only for the right axis/perm combination (or a square input)
+    for ds, axis, perm in [((2, 3), 0, None), ((2, 3), 1, (1, 0)), ((2, 3), 0, (1, 0)), ((2, 2), 0, (1, 0)), ((3, 2), 1, None),
+                           ((2, 3, 2), 0, None), ((2, 3, 2), 2, (2, 1, 0)), ((2, 3, 2), 0, (1, 0, 2))]:
+        tshape = tuple(ds[p] for p in perm) if perm else ds
+        n = ds[axis]
+        if n > tshape[0]:
+            continue  # indices out of range: the original model itself fails
+        h = H(f"ScatterND full-range idiom data={list(ds)} axis={axis} perm={perm}")
+        h.inp("data", F, ds)
+        h.inp("u", F, (n,) + tshape[1:])
+        h.n("Shape", ["data"], "sh", start=0)
+        h.c("axis", np.array(axis, dtype=np.int64))
+        h.n("Gather", ["sh", "axis"], "dim", axis=0)
+        h.c("zero", np.array(0, dtype=np.int64))
+        h.c("one", np.array(1, dtype=np.int64))
+        h.n("Range", ["zero", "dim", "one"], "r")
+        h.c("m1", np.array([-1], dtype=np.int64))
+        h.n("Unsqueeze", ["r", "m1"], "i")
+        if perm:
+            h.n("Transpose", ["data"], "t", perm=list(perm))
+        else:
+            h.n("Identity", ["data"], "t")
+        h.n("ScatterND", ["t", "i", "u"], "y", reduction="none")
         h.out("y")
         out.append(h.build())
     return out
